@@ -778,7 +778,17 @@ class _Flag:
     def __get__(self, obj, cls=None):
         if obj is None:
             return self
-        return obj.__dict__.get(self.slot, False)
+        value = obj.__dict__.get(self.slot, False)
+        hub = hubmod.hub()
+        if hub is not None and hub.primlog is not None and getattr(hub, 'log_flags', False) and \
+                getattr(hub.current, 'proc', None) is not None:
+            # a read by one of the script's tasks: a record and a switch point as well
+            rec = {'t': hub.current.proc, 'op': 'flagread',
+                   'item': '%s=%s' % (self.name, 'T' if value else 'F'), 'q': 'flag'}
+            hub.primlog.append(rec)
+            hub.after_log(rec)
+            hub.yield_point()
+        return value
 
     def __set__(self, obj, value):
         obj.__dict__[self.slot] = value
@@ -840,6 +850,7 @@ def run_up(script, seed):
         stage = 0
         gone = False
         polls = []
+        pollreqs = []
 
         def outstanding():
             return any(not t.done for t in polls)
@@ -884,8 +895,10 @@ def run_up(script, seed):
                     continue
                 p += 1
                 if k == 'poll':
-                    task = w.reqs[w.http('GET', qs, slot=1)].task
+                    rq = w.reqs[w.http('GET', qs, slot=1)]
+                    task = rq.task
                     polls.append(task)
+                    pollreqs.append((p, rq))
                 elif k == 'send':
                     task = w.reqs[w.app_send(1)]['task']
                 else:
@@ -900,9 +913,9 @@ def run_up(script, seed):
                     log.append({'t': e['t'], 'op': 'ret', 'item': ''})
                 continue
             if e['q'] in ('wswait', 'flag'):
-                if e['t'] != 1:
+                if e['t'] != 1 and e['op'] != 'flagread':
                     raise RuntimeError('%s by task %r' % (e['op'], e['t']))
-                log.append({'t': 1, 'op': e['op'], 'item': e['item']})
+                log.append({'t': e['t'], 'op': e['op'], 'item': e['item']})
                 continue
             if e['q'] is not so.queue:
                 continue
@@ -919,7 +932,8 @@ def run_up(script, seed):
                  'intable': sid in w.server.sockets, 'sent': len(w.accepted.get(1, [])),
                  'upgrading': bool(so.upgrading), 'upgraded': bool(so.upgraded),
                  'pdeliv': [d[0] for d in dl if d[1] != 'ws'],
-                 'wdeliv': [d[0] for d in dl if d[1] == 'ws']}
+                 'wdeliv': [d[0] for d in dl if d[1] == 'ws'],
+                 'status': [[pp, str(rq.status)[:3]] for pp, rq in pollreqs if rq.task.done]}
         facts['nproc'] = p
         return {'log': log, 'final': final}, facts
     finally:
